@@ -116,7 +116,7 @@ def start (c : Client) (id : TID) (raw : Bytes) (handler : Option Nat) : Client 
     if (c.lookup id).isSome then (c, some .exists, []) else
     let c := c.insert tx
     match c.agent.start id d with
-    | (_, some err) => (c, some (if err == .closed then .agentClosed else .exists), [])
+    | (_, some err) => (c.erase id, some (if err == .closed then .agentClosed else .exists), [])   -- deleteIfCurrent
     | (a, none) =>
       let w := ({ c with agent := a }).connWrite raw
       if w.2 then (w.1, none, [.write raw (some h)])
